@@ -156,6 +156,12 @@ def direct_case(rng):
     """one start tag, language attributes that do not change the result mixed with foreign ones: expected computed directly"""
     parts = rng.sample(FOREIGN + [' class="c"', ' Id="I"', " title='a&amp;b'", '  href="x"', ' disabled="disabled"'], rng.randint(1, 4))
     langs = rng.sample(LANG_NEUTRAL, rng.randint(1, 4))
+    if rng.random() < 0.3:
+        # foreign names that differ from language ones only by letter case (XML names are case sensitive)
+        k = rng.choice([0, 1, 2])
+        parts.append([' xmlns:ZZ="urn:zz" ZZ:omit-tag="kept"', ' xmlns:TAL="urn:other" TAL:define="kept"', ' xmlns:I18N="urn:i" I18N:domain="kept"'][k])
+        langs.append([' zz:omit-tag="nothing"', ' tal:define="v 1"', ' i18n:domain="d"'][k])
+        langs = list(dict.fromkeys(langs))
     data = any('data-tal' in l or 'data-i18n' in l for l in langs)
     if any(' zz:' in l for l in langs) and not any('xmlns:zz' in l for l in langs):
         langs.append(' xmlns:zz="%s"' % TAL)
